@@ -103,9 +103,31 @@ def canon_name(dt) -> str:
     return np.dtype(dt.type).name
 
 
+SIZE_CLASSES = [0, 1, 2, 255, 256, 257, 1023, 1024, 1025, 4096, 65536]
+SHAPES_OF = {0: [[0], [0, 3]], 1: [[1], [1, 1]], 2: [[2], [2, 1]], 255: [[255], [5, 51]], 256: [[256], [16, 16]],
+             257: [[257], [257, 1]], 1023: [[1023], [3, 341]], 1024: [[1024], [32, 32], [2, 4, 128]],
+             1025: [[1025], [25, 41]], 4096: [[4096], [64, 64]], 65536: [[65536], [256, 256]]}
+
+
+def materialise(spec):
+    """A spec may carry a seed instead of its payload (keeps replay files small): regenerate it."""
+    if "gen_seed" in spec and "words" not in spec and "strs" not in spec:
+        import random as _random
+
+        r = _random.Random(spec["gen_seed"])
+        spec = dict(spec)
+        n = numel(spec["shape"])
+        if spec["dtype"] == "str":
+            spec["strs"] = [rand_str(r) for _ in range(n)]
+        else:
+            spec["words"] = rand_words(r, spec["dtype"], n * comps(spec["dtype"]))
+    return spec
+
+
 def make_array(spec):
     import numpy as np
 
+    spec = materialise(spec)
     d, shape = spec["dtype"], tuple(spec["shape"])
     if d == "str":
         strs = ["".join(map(chr, cps)) for cps in spec.get("strs", [])]
@@ -118,6 +140,8 @@ def make_array(spec):
             u = {8: np.uint8, 16: np.uint16, 32: np.uint32, 64: np.uint64}[W.BITS[d]]
             a = np.array(ws, dtype=u).view(np_dtype(d))
         a = a.reshape(shape)
+    if spec.get("bo") == ">" and d not in ("bool", "int8", "uint8", "bfloat16"):
+        a = a.astype(a.dtype.newbyteorder(">"))  # non-native byte order, same values
     lay = spec.get("layout", "C")
     if lay == "F" and a.ndim >= 2:
         a = np.asfortranarray(a)
@@ -265,6 +289,15 @@ def enc_cases(ck):
     for d in DT_ALL:
         for shape in SHAPES:
             cases.append(rand_spec(rng, d, shape, layout="C"))
+    # size classes (an implementation may change strategy at a threshold), with non-native byte order too
+    big = set(DT_ALL) if ck.thorough else set(rng.sample(DT_ALL, 3))
+    for d in DT_ALL:
+        for n in SIZE_CLASSES:
+            if n == 65536 and d not in big:
+                continue
+            for bo in ("=", ">"):
+                shape = SHAPES_OF[n][-1 if bo == ">" else 0]
+                cases.append(materialise({"dtype": d, "shape": shape, "bo": bo, "gen_seed": rng.getrandbits(32)}))
     for c in cases:
         c.setdefault("layout", "C")
     return cases
@@ -277,10 +310,11 @@ def run_enc_correspondence(ck, q):
     from spox._utils import from_array
 
     cases = enc_cases(ck)
-    reqs = [{"op": "enc", "q": q, "name": "t", **{k: v for k, v in c.items() if k != "layout"}} for c in cases]
+    reqs = [{"op": "enc", "q": q, "name": "t", **{k: v for k, v in c.items() if k not in ("layout", "bo", "gen_seed")}} for c in cases]
     outs = ck.driver().ask_many("C10", reqs)
     mism = 0
     elems = 0
+    n_raw = 0
     for c, m in zip(cases, outs):
         arr = make_array(c)
         real = from_array(arr, "t")
@@ -293,14 +327,24 @@ def run_enc_correspondence(ck, q):
             bad = f"model: {m}"
         else:
             mp = m["proto"]
-            for k in ("data_type", "dims", "name", "int32_data", "int64_data", "uint64_data", "float_data",
-                      "double_data", "string_data"):
+            fields_cmp = ("data_type", "dims", "name", "int32_data", "int64_data", "uint64_data", "float_data",
+                          "double_data", "string_data")
+            if rt["raw_data"]:
+                # raw storage is an equally valid embedding (ONNX: raw_data is little-endian, fixed width): it must
+                # decode to the very payload; the typed-field model is then not what the code does, which is noted
+                n_raw += 1
+                dec = W.tensor(real.SerializeToString())
+                if dec.get("words") != c.get("words"):
+                    i = next((i for i, (x, y) in enumerate(zip(dec.get("words", []), c.get("words", []))) if x != y), None)
+                    bad = f"raw_data does not decode (little-endian) to the payload: first-diff-index {i}, {len(dec.get('words', []))} words"
+                fields_cmp = ("data_type", "dims", "name")
+            for k in fields_cmp:
+                if bad:
+                    break
                 if mp[k] != rt[k]:
                     i = next((i for i, (x, y) in enumerate(zip(mp[k], rt[k])) if x != y), None) if isinstance(mp[k], list) else None
                     bad = f"field {k}: model {str(mp[k])[:80]} real {str(rt[k])[:80]} first-diff-index {i}"
                     break
-            if not bad and rt["raw_data"]:
-                bad = "real tensor uses raw_data"
             if not bad:
                 back = nh.to_array(real)
                 mb = m["back"]
@@ -312,7 +356,8 @@ def run_enc_correspondence(ck, q):
                         if mb["strs"] != real_words or mb["shape"] != list(back.shape):
                             bad = f"to_array strings: model {mb['strs'][:4]} real {real_words[:4]}"
                     else:
-                        if mb["words"] != real_words or mb["shape"] != list(back.shape) or mb["dtype"] != canon_name(back.dtype):
+                        if (not same_words(c["dtype"], mb["words"], real_words) if rt["raw_data"] else mb["words"] != real_words) \
+                                or mb["shape"] != list(back.shape) or mb["dtype"] != canon_name(back.dtype):
                             i = next((i for i, (x, y) in enumerate(zip(mb["words"], real_words)) if x != y), None)
                             bad = f"to_array: model {mb['dtype']}{mb['shape']} real {canon_name(back.dtype)}{list(back.shape)} first-diff-index {i}"
         if bad:
@@ -347,6 +392,15 @@ def run_enc_correspondence(ck, q):
                 proto["int32_data"] = vals
             dec_reqs.append({"op": "dec", "q": q, "proto": proto})
             dec_real.append((d, t))
+    # raw storage (ONNX: little-endian, fixed width): to_array's raw branch vs the model's
+    for d in [x for x in DT_ALL if x != "str"]:
+        for n in (0, 1, 3, 1024):
+            spec = materialise({"dtype": d, "shape": [n], "gen_seed": rng.getrandbits(32)})
+            arr = make_array(spec)
+            le = arr.astype(arr.dtype.newbyteorder("<")) if arr.dtype.byteorder == ">" else arr
+            t = onnx.helper.make_tensor("", W.ONNX_ENUM[d], [n], le.tobytes(), raw=True)
+            dec_reqs.append({"op": "dec", "q": q, "proto": {"data_type": W.ONNX_ENUM[d], "dims": [n], "raw_data": list(le.tobytes())}})
+            dec_real.append((d, t))
     outs = ck.driver().ask_many("C10", dec_reqs)
     for (d, t), m in zip(dec_real, outs):
         back = nh.to_array(t)
@@ -357,8 +411,11 @@ def run_enc_correspondence(ck, q):
             if mism <= 3:
                 ck.broken("correspondence", "C10 toArray vs onnx.numpy_helper.to_array",
                           f"dtype={d} proto={str(t)[:120]!r}: model {mb} real {words_of(back)}")
+    if n_raw:
+        ck.notes.append(f"{n_raw} tensors are stored through raw_data (accepted: they decode little-endian to the payload); "
+                        "the typed-field layout theorems then describe only the tensors that use typed fields")
     ck.cov["enc_correspondence"] = {"cases": len(cases), "elements": elems, "dec_cases": len(dec_reqs),
-                                    "mismatches": mism, "platform_quietens_snan": q,
+                                    "mismatches": mism, "platform_quietens_snan": q, "tensors_using_raw_data": n_raw,
                                     "exhaustive_16bit": True}
     return mism
 
@@ -1421,7 +1478,7 @@ def embed_case(case):
     import spox.opset.ai.onnx.v17 as op
     from spox import Tensor
 
-    spec, route = case["arr"], case["route"]
+    spec, route = materialise(case["arr"]), case["route"]
     need = {"initializer": ("spox._graph", "initializer"), "arg_default": ("spox._graph", "arguments"),
             "future_initializer": ("spox._future", "initializer"), "future_initializer_dtype": ("spox._future", "initializer"),
             "attr_tensor_class": ("spox._attributes", "AttrTensor")}.get(route)
@@ -1552,6 +1609,25 @@ def gen_embed_cases(ck):
             if dst in DT_INT + ["bool"] and src in FMT:
                 continue
             cases.append({"kind": "embed", "route": route, "arr": spec, "req_dtype": dst})
+    # size classes x byte orders x layouts on every route: implementations switch strategy at a threshold
+    big_routes = ["constant", "const", "initializer", "future_initializer", "arg_default", "attr_tensor_class"]
+    lays = ["C", "F", "strided"]
+    for d in DT_ALL:
+        for n in SIZE_CLASSES:
+            shapes = SHAPES_OF[n]
+            if n == 65536 and not ck.thorough:
+                shapes = [shapes[rng.randrange(len(shapes))]]
+            for shape in shapes:
+                combos = [(r, bo, l) for r in big_routes for bo in ("=", ">") for l in lays]
+                if ck.thorough and n <= 4096:
+                    pick = combos
+                elif n in (1023, 1024, 1025):
+                    pick = [(r, bo, rng.choice(lays)) for r in big_routes for bo in ("=", ">")]
+                else:
+                    pick = [(rng.choice(big_routes), bo, rng.choice(lays)) for bo in ("=", ">")]
+                for route, bo, lay in pick:
+                    cases.append({"kind": "embed", "route": route,
+                                  "arr": {"dtype": d, "shape": shape, "layout": lay, "bo": bo, "gen_seed": rng.getrandbits(32)}})
     fb = lambda x: {"f": struct.unpack("<Q", struct.pack("<d", x))[0]}  # noqa: E731
     pys = [1, -1, 0, 2**63 - 1, -2**63, 2**63, 2**64 - 1, True, False, fb(1.5), fb(-0.0), fb(float("nan")), fb(1e40), "ü", "", "a\x00b",
            [1, 2], [1, fb(2.5)], [True, False], [True, 2], [0, 2**63], [2**63], ["a", "ü"], [], [[1, 2], [3, 4]], [[1], [fb(0.5)]],
@@ -1802,7 +1878,7 @@ def run_oracle(ck):
     for case in gen_embed_cases(ck):
         probs = embed_case(case)
         stats["embed"] += 1
-        ck.count(("embed", case["route"], case["arr"]["dtype"], tuple(case["arr"]["shape"]), case["arr"].get("layout")))
+        ck.count(("embed", case["route"], case["arr"]["dtype"], tuple(case["arr"]["shape"]), case["arr"].get("layout"), case["arr"].get("bo")))
         for key, what in probs:
             if key == "unobservable":
                 UNOBSERVABLE.setdefault(f"route {case['route']}", what)
@@ -1810,6 +1886,10 @@ def run_oracle(ck):
             d = case.get("req_dtype") or case["arr"]["dtype"]
             if "py" in case:
                 d = type(_py_decode(case["py"])).__name__
+            n_el = numel(case["arr"]["shape"])
+            if n_el >= 255 and "py" not in case:
+                what += f" [{n_el} elements, byte order {case['arr'].get('bo', '=')!r}, layout {case['arr'].get('layout')}]"
+                key += ":large" if n_el >= 1024 else ""
             ck.failure(f"embed:{case['route']}:{d}:{key}", f"{case['route']}: {what}", case)
     # F2 attribute kinds
     for i, (desc, build, exp) in enumerate(attr_kind_cases()):
